@@ -27,10 +27,16 @@
 use rrtk::*;
 use rrtk_mon::*;
 
-/// forward-error constants: |err| <= K * 2^-24 * sum|terms| (includes the i64 -> f32 seconds
-/// conversion of dt, two roundings of relative size 2^-24 on every term that contains dt)
+/// Forward-error bound: |err| <= K * 2^-24 * sum|terms|  +  KD * 2^-24 * |dt * d(ref)/d(dt)|.
+/// The first part covers the roundings of the arithmetic itself (any association of the closed
+/// form has a handful of them, each relative 2^-24 of a partial sum <= sum|terms|). The second part
+/// is the documented conversion of the i64 ns `Time` to f32 seconds inside the crate (`ns as f32`,
+/// then `/ 1e9`: two roundings, relative 2^-24 each, on dt), propagated through the sensitivity of
+/// the reference to dt taken term by term in absolute value: |a*dt| for v', |v*dt| + |a*dt^2| for p'.
+/// KD = 2 roundings x 16 head-room.
 const KV: f64 = 32.0;
-const KP: f64 = 64.0;
+const KP: f64 = 32.0;
+const KD: f64 = 32.0;
 /// 1e5 s in ns
 const DT_MAX: i64 = 100_000_000_000_000;
 
@@ -195,22 +201,24 @@ fn check_update(rep: &mut Report, sub: &'static str, case: u64, s0: State, dt_ns
     let dt = dt_ns as f64 / 1e9;
     let v_ref = v + a * dt;
     let tv = v.abs() + (a * dt).abs();
+    let bound_v = KV * U * tv + KD * U * (a * dt).abs();
     let p_ref = p + v * dt + a * dt * dt / 2.0;
     let tp = p.abs() + (v * dt).abs() + (a * dt * dt / 2.0).abs();
+    let bound_p = KP * U * tp + KD * U * ((v * dt).abs() + (a * dt * dt).abs());
     if bounded {
         rep.eval();
-        let (ok, ratio) = within(s1.velocity, v_ref, KV * U * tv);
+        let (ok, ratio) = within(s1.velocity, v_ref, bound_v);
         rep.max("update_velocity_err_over_bound", ratio);
         if !ok {
             rep.violation(&format!("C14/update/velocity/{}", dn), sub, case,
-                format!("{}.update(Time({})) -> velocity {} but v + a*dt = {:e} (bound {:e}, err/bound {:.3e})", sfmt(&s0), dt_ns, f(s1.velocity), v_ref, KV * U * tv, ratio));
+                format!("{}.update(Time({})) -> velocity {} but v + a*dt = {:e} (bound {:e}, err/bound {:.3e})", sfmt(&s0), dt_ns, f(s1.velocity), v_ref, bound_v, ratio));
         }
         rep.eval();
-        let (ok, ratio) = within(s1.position, p_ref, KP * U * tp);
+        let (ok, ratio) = within(s1.position, p_ref, bound_p);
         rep.max("update_position_err_over_bound", ratio);
         if !ok {
             rep.violation(&format!("C14/update/position/{}", dn), sub, case,
-                format!("{}.update(Time({})) -> position {} but p + v*dt + a*dt^2/2 = {:e} (bound {:e}, err/bound {:.3e})", sfmt(&s0), dt_ns, f(s1.position), p_ref, KP * U * tp, ratio));
+                format!("{}.update(Time({})) -> position {} but p + v*dt + a*dt^2/2 = {:e} (bound {:e}, err/bound {:.3e})", sfmt(&s0), dt_ns, f(s1.position), p_ref, bound_p, ratio));
         }
         if dt_ns == 0 {
             // identity: x + 0*y == x exactly in IEEE arithmetic when y is finite (modulo the sign of zero)
@@ -583,7 +591,7 @@ fn main() {
     rep.floor("dimension_checking_enabled", 1);
 
     // ---- 1. kinematics with finite intermediates
-    for case in args.cases("update", 40_000, 4_000_000) {
+    for case in args.cases("update", 300_000, 12_000_000) {
         let mut rng = Rng::new(args.seed, 1401, case);
         let mag = if rng.chance(0.6) { Mag::Moderate } else { Mag::Wide };
         let s0 = gen_state(&mut rng, mag);
@@ -597,7 +605,7 @@ fn main() {
         }
     }
     // ---- 2. any finite triple: no panic, acceleration untouched (overflow only observed)
-    for case in args.cases("update-extreme", 6_000, 600_000) {
+    for case in args.cases("update-extreme", 40_000, 2_000_000) {
         let mut rng = Rng::new(args.seed, 1402, case);
         let s0 = gen_state(&mut rng, Mag::Any);
         let dt_ns = gen_dt(&mut rng, case);
@@ -610,7 +618,7 @@ fn main() {
         }
     }
     // ---- 3. setters x 49 grid units
-    let reps = args.pick(60, 6_000);
+    let reps = args.pick(400, 20_000);
     let mut idx = 0u64;
     for _ in 0..reps {
         for m in -3..=3 {
@@ -627,7 +635,7 @@ fn main() {
     }
     rep.exhaustive("49 grid units (mm^-3..3 s^-3..3) x {set_constant_position, set_constant_velocity, set_constant_acceleration} (+ the three raw setters)");
     // ---- 4. State::new: one slot sweeps the 49 units, the other two are right; then random triples
-    let reps = args.pick(10, 1_000);
+    let reps = args.pick(60, 3_000);
     let mut idx = 0u64;
     for _ in 0..reps {
         for slot in 0..3usize {
@@ -648,7 +656,7 @@ fn main() {
         }
     }
     rep.exhaustive("State::new: each of the 3 argument slots x 49 grid units with the other two slots right");
-    for case in args.cases("state-new-random", 3_000, 300_000) {
+    for case in args.cases("state-new-random", 30_000, 1_500_000) {
         let mut rng = Rng::new(args.seed, 1405, case);
         let vals = [rng.any_finite(), rng.any_finite(), rng.any_finite()];
         let mut es = EXPS;
@@ -662,7 +670,7 @@ fn main() {
         check_state_access(&mut rep, "state-new-random", case, s);
     }
     // ---- 5. Command::from(State): all 64 zero/sign patterns
-    let reps = args.pick(60, 6_000);
+    let reps = args.pick(600, 30_000);
     let mut idx = 0u64;
     for _ in 0..reps {
         for pat in 0..64u64 {
@@ -687,7 +695,7 @@ fn main() {
     }
     rep.exhaustive("Command::from(State): 4^3 patterns of {+0, -0, >0, <0} over (position, velocity, acceleration)");
     // ---- 6. Command conversions
-    for case in args.cases("cmd-conv", 12_000, 1_200_000) {
+    for case in args.cases("cmd-conv", 90_000, 4_500_000) {
         let mut rng = Rng::new(args.seed, 1407, case);
         let kind = (case % 3) as usize;
         let x = if rng.chance(0.15) { comp(&mut rng, Mag::Any) } else { rng.any_finite() };
@@ -695,7 +703,7 @@ fn main() {
         check_cmd_conv(&mut rep, "cmd-conv", case, kind, x);
     }
     // ---- 7. State arithmetic
-    for case in args.cases("state-arith", 8_000, 800_000) {
+    for case in args.cases("state-arith", 60_000, 3_000_000) {
         let mut rng = Rng::new(args.seed, 1408, case);
         let mag = if rng.chance(0.5) { Mag::Any } else { Mag::Moderate };
         let a = gen_state(&mut rng, mag);
@@ -705,7 +713,7 @@ fn main() {
         check_state_arith(&mut rep, "state-arith", case, a, b, k);
     }
     // ---- 8. Command arithmetic: 3x3 kind pairs
-    let reps = args.pick(800, 80_000);
+    let reps = args.pick(5_000, 250_000);
     let mut idx = 0u64;
     for _ in 0..reps {
         for ki in 0..3usize {
@@ -725,21 +733,23 @@ fn main() {
     }
     rep.exhaustive("Command arithmetic: 3x3 ordered kind pairs x {+, -, +=, -=} (panic iff kinds differ) and {neg, *f32, /f32, *=, /=}");
 
-    rep.floor("update_dt-zero", 1_000);
-    rep.floor("update_dt-negative", 5_000);
-    rep.floor("update_dt-positive", 5_000);
-    rep.floor("setter_accepted", 150);
-    rep.floor("setter_rejected", 5_000);
-    rep.floor("setter_raw", 5_000);
-    rep.floor("state_new_panics_observed", 1_000);
-    rep.floor("state_new_ok", 300);
-    rep.floor("from_state_position", 200);
-    rep.floor("from_state_velocity", 500);
-    rep.floor("from_state_acceleration", 1_000);
-    rep.floor("cmd_conv_position", 1_000);
-    rep.floor("cmd_conv_velocity", 1_000);
-    rep.floor("cmd_conv_acceleration", 1_000);
-    rep.floor("cmd_mixed_kind_panics_observed", 5_000);
-    rep.floor("cmd_same_kind_binary", 2_000);
+    // floors (merged tallies; met by quota for every seed: dt classes are case % 10, units /
+    // patterns / kind pairs are enumerated)
+    rep.floor("update_dt-zero", 30_000);
+    rep.floor("update_dt-negative", 100_000);
+    rep.floor("update_dt-positive", 100_000);
+    rep.floor("setter_accepted", 1_200);
+    rep.floor("setter_rejected", 50_000);
+    rep.floor("setter_raw", 50_000);
+    rep.floor("state_new_panics_observed", 8_000);
+    rep.floor("state_new_ok", 3_000);
+    rep.floor("from_state_position", 9_000);
+    rep.floor("from_state_velocity", 9_000);
+    rep.floor("from_state_acceleration", 19_000);
+    rep.floor("cmd_conv_position", 30_000);
+    rep.floor("cmd_conv_velocity", 30_000);
+    rep.floor("cmd_conv_acceleration", 30_000);
+    rep.floor("cmd_mixed_kind_panics_observed", 100_000);
+    rep.floor("cmd_same_kind_binary", 50_000);
     rep.finish(&args);
 }
